@@ -141,6 +141,19 @@ class walk_tree(object):
                             # Is the matched segment the beginning of a loop?
                             if node.is_loop() \
                                     and self._is_loop_match(node, seg_data, errh, seg_count, cur_line, ls_id):
+                                if orig_node.is_segment():
+                                    # The loop instance being left holds nothing after its first segment:
+                                    # whatever it requires further on is missing
+                                    for ord2 in [a for a in sorted(node.pos_map) if a >= node_pos]:
+                                        for sib in node.pos_map[ord2]:
+                                            if sib is child:
+                                                continue
+                                            if sib.is_loop():
+                                                self._is_loop_match(sib, seg_data, errh, seg_count, cur_line, ls_id)
+                                            elif sib.usage == 'R' and self.counter.get_count(sib.x12path) < 1:
+                                                fake_seg = pyx12.segment.Segment('%s' % (sib.id), '~', '*', ':')
+                                                err_str = 'Mandatory segment "%s" (%s) missing' % (sib.name, sib.id)
+                                                self.mandatory_segs_missing.append((sib, fake_seg, '3', err_str, seg_count, cur_line, ls_id))
                                 (
                                     node1, push_node_list) = self._goto_seg_match(node, seg_data,
                                                                                   errh, seg_count, cur_line, ls_id)
